@@ -100,7 +100,7 @@ class HTTPConnection(Mapping[str, Any], MoreInfoFromHeaderMixin):
         """
         Query parameter. It is a multi-value mapping.
         """
-        return QueryParams(self["query_string"])
+        return QueryParams(self.get("query_string", b""))
 
     @cached_property
     def headers(self) -> Headers:
